@@ -206,5 +206,5 @@ func TestVtrefVectors(t *testing.T) {
 
 func TestReplay(t *testing.T) {
 	r := harness.Decode(run)
-	harness.ReplayAll(t, map[string]harness.Runner{"exhaustive": r, "grammar": r, "raw": r, "long": r})
+	harness.ReplayAll(t, map[string]harness.Runner{"exhaustive": r, "grammar": r, "raw": r, "long": r, "fuzz": r})
 }
